@@ -1,6 +1,7 @@
 package chaincheck
 
 import (
+	"bytes"
 	"fmt"
 	"testing"
 
@@ -43,12 +44,12 @@ type c19Snap struct {
 	writes    int
 }
 
-func c19RunOn(c c19Case, w *ck.World, nOrig int, db *ck.CrashDB, stopWhenCrashed bool) (*hist, []c19Snap, error) {
+func c19RunOn(c c19Case, w *ck.World, nOrig int, db *ck.CrashDB, stopWhenCrashed bool, script []resolvedEv) (*hist, []c19Snap, error) {
 	n, err := ck.NewNode(w, db)
 	if err != nil {
 		return nil, nil, fmt.Errorf("HARNESS: cannot start node: %v", err)
 	}
-	h := &hist{w: w, n: n, delivered: map[int]bool{0: true}, ffg: newFFG(w)}
+	h := &hist{w: w, n: n, delivered: map[int]bool{0: true}, ffg: newFFG(w), script: script}
 	for i := 1; i < nOrig; i++ {
 		h.remaining = append(h.remaining, i)
 	}
@@ -82,7 +83,7 @@ func c19Exec(c c19Case, x *pbt.Ctx) error {
 	ref.Stop()
 	base := refDB.Writes()
 	refDB2 := ck.NewCrashDB(ck.NewMemDB())
-	hRef, snaps, err := c19RunOn(c, w, nOrig, refDB2, false)
+	hRef, snaps, err := c19RunOn(c, w, nOrig, refDB2, false, nil)
 	if err != nil {
 		return fmt.Errorf("HARNESS: crash-free run failed: %v", err)
 	}
@@ -146,7 +147,7 @@ func c19Exec(c c19Case, x *pbt.Ctx) error {
 		db.Arm(k)
 		var log []string
 		db.Log = &log
-		h, _, rerr := c19RunOn(c, w, nOrig, db, true)
+		h, _, rerr := c19RunOn(c, w, nOrig, db, true, hRef.trace)
 		_ = rerr // after the crash point the abandoned process may report anything
 		if h == nil {
 			return fmt.Errorf("HARNESS: node could not start under crash point %d", k)
@@ -172,8 +173,21 @@ func c19Exec(c c19Case, x *pbt.Ctx) error {
 			}
 		}
 		if !okBest {
-			n.Stop()
-			return fmt.Errorf("%s: restarted node has best block #%d, which is on none of the main chains the crash-free run had (its best blocks: %v)", where, best, keys(bestSeen))
+			// known finding: casper persists what a block's header signatures do to the checkpoints
+			// (justify the block's checkpoint, finalize its source, prune the other branches) before
+			// the block itself is stored.  A crash in between leaves that finality without the block;
+			// the restarted node then follows the fork choice under it and may pick a block the
+			// crash-free node never had as best.  Matched only if exactly that happened: a checkpoint
+			// record without its block, a finalized checkpoint the crash-free run also reached, and a
+			// best block below it.  Everything else (index, ledger, convergence) is still judged.
+			orphanRecord := checkpointRecordWithoutBlock(n, nOrig)
+			hx := &hist{w: w, n: n}
+			fin, ferr := hx.finalizedIdx()
+			if orphanRecord < 0 || ferr != nil || !finSeen[fin] || best < 0 || !w.IsAncestor(fin, best) {
+				n.Stop()
+				return fmt.Errorf("%s: restarted node has best block #%d, which is on none of the main chains the crash-free run had (its best blocks: %v); last finalized #%d (%v; crash-free run: %v), checkpoint record without block: #%d", where, best, keys(bestSeen), fin, ferr, keys(finSeen), orphanRecord)
+			}
+			x.Known("checkpoint-effects-stored-before-block")
 		}
 		if err := checkIndex(n, where+": after restart"); err != nil {
 			n.Stop()
@@ -187,7 +201,9 @@ func c19Exec(c c19Case, x *pbt.Ctx) error {
 		for i := 0; i < nOrig; i++ {
 			storedAtRestart[i] = n.Has(i)
 		}
-		hh := &hist{w: w, n: n, delivered: map[int]bool{0: true}, ffg: newFFG(w)}
+		// the re-delivery shows the node exactly the blocks and messages of the crash-free run (the
+		// selectors of vote events are not resolved again against what this node happens to store)
+		hh := &hist{w: w, n: n, delivered: map[int]bool{0: true}, ffg: newFFG(w), script: hRef.trace}
 		fin, err := hh.finalizedIdx()
 		if err != nil {
 			n.Stop()
@@ -260,6 +276,28 @@ func c19Exec(c c19Case, x *pbt.Ctx) error {
 	x.NonTrivial = inner > 0
 	x.Sample = map[string]interface{}{"blocks": len(c.Tree.Blocks), "events": len(c.Events), "writes": total - base, "crash_points": len(ks), "between_commits_of_one_event": inner}
 	return nil
+}
+
+// checkpointRecordWithoutBlock scans the raw checkpoint records (key = prefix, height, block hash)
+// for one whose block the node does not have; -1 if there is none.
+func checkpointRecordWithoutBlock(n *ck.Node, nOrig int) int {
+	prefix := []byte{6, ':'}
+	it := n.DB.IteratorPrefix(prefix)
+	defer it.Release()
+	found := -1
+	for it.Next() {
+		k := it.Key()
+		if len(k) != len(prefix)+8+32 {
+			continue
+		}
+		for i := 1; i < nOrig; i++ {
+			h := n.W.Hash(i)
+			if bytes.Equal(k[len(prefix)+8:], h.Bytes()) && !n.Has(i) {
+				found = i
+			}
+		}
+	}
+	return found
 }
 
 func tail(log []string, k, n int) []string {
